@@ -85,7 +85,7 @@ class Tap:
         self.roots = []
 
     # ------------------------------------------------------------------
-    def _make_wrapper(self, original, label, pre, post, is_generator):
+    def _make_wrapper(self, original, label, pre, post, is_generator, documented=None):
         tap = self
         try:
             sig = inspect.signature(original)
@@ -101,8 +101,17 @@ class Tap:
                 bound = sig.bind(*args, **kwargs)
             except TypeError:
                 return {"args": args, "kwargs": kwargs, "_bind_failed": True}
+            explicit = set(bound.arguments)
             bound.apply_defaults()
-            return dict(bound.arguments)
+            out = dict(bound.arguments)
+            if documented:
+                # arguments the caller left out are judged by the DOCUMENTED default, not by whatever the (possibly changed)
+                # signature supplies: a monitor that reads the bound value would otherwise follow a changed default silently
+                for key, value in documented.items():
+                    if key in out and key not in explicit:
+                        out[key] = value
+                        tap.run.count("defaulted_argument:%s.%s" % (label, key))
+            return out
 
         @functools.wraps(original)
         def wrapper(*args, **kwargs):
@@ -192,12 +201,12 @@ class Tap:
             self._local.busy -= 1
 
     # ------------------------------------------------------------------
-    def function(self, module, name, post=None, pre=None, generator=False):
+    def function(self, module, name, post=None, pre=None, generator=False, documented=None):
         original = getattr(module, name)
         if hasattr(original, "__verif_original__"):
             raise RuntimeError("%s.%s is already tapped" % (module.__name__, name))
         label = name
-        wrapper = self._make_wrapper(original, label, pre, post, generator)
+        wrapper = self._make_wrapper(original, label, pre, post, generator, documented)
         self._rebind(original, wrapper)
         return wrapper
 
